@@ -1810,7 +1810,9 @@ fn wt_case(rec: &mut Recorder, text: Vec<u32>, qs: Vec<u32>, shape: &str) {
         Ok(Ok((a, rk, sl, len))) => {
             let row = |v: &Vec<Option<usize>>| v.iter().map(|x| opt(*x)).collect::<Vec<_>>().join(",");
             let line = format!(
-                "pf=1 len={} a={} r={} s={}",
+                // hb=1: the encoder of this row IS `HuffmanEncoder::construct(row)`, so the model's
+                // `bookOfText row` must be the book of the request
+                "pf=1 hb=1 len={} a={} r={} s={}",
                 len,
                 a.iter().map(|x| x.map(|v| v.to_string()).unwrap_or("-".into())).collect::<Vec<_>>().join(","),
                 if qs.is_empty() { "-".to_string() } else { rk.iter().map(row).collect::<Vec<_>>().join("|") },
@@ -1850,6 +1852,129 @@ fn wt_case(rec: &mut Recorder, text: Vec<u32>, qs: Vec<u32>, shape: &str) {
         }
         Ok(Err(m)) => rec.case(&req, &m.replace(' ', "_"), Verdict::Fail { class: "wavelet-answer".into(), detail: m }, nt),
         Err(m) => rec.case(&req, "panic", Verdict::Fail { class: "doc-panic".into(), detail: m }, nt),
+    }
+}
+
+/// `doc huff <s:f,…> :: <sym:code:len,…>`: the real `HuffmanEncoder::construct` over a text with
+/// exactly the given `(symbol, frequency)` table (ascending symbols); the model must build the
+/// same book (`eq=1`).  Oracle, independent of the model: the book is a well-formed complete prefix
+/// code over exactly the input symbols (`huffman-book-malformed`) and `decode(encode(t)) == t` for
+/// every symbol of the row (`huffman-roundtrip`).
+fn huff_case(rec: &mut Recorder, freqs: Vec<(u32, u64)>, family: &str) {
+    use scrunch::encoder::{Encoder, HuffmanEncoder};
+    let k = freqs.len();
+    let mut text: Vec<u32> = Vec::with_capacity(freqs.iter().map(|f| f.1 as usize).sum());
+    for (s, f) in freqs.iter() {
+        for _ in 0..*f {
+            text.push(*s);
+        }
+    }
+    let absent = freqs.iter().map(|f| f.0).max().unwrap_or(0) + 2;
+    type Obs = (Vec<Option<(u32, u8)>>, usize, Option<(u32, u8)>, Option<u32>);
+    let r: Result<Obs, String> = g(|| {
+        let enc = HuffmanEncoder::construct(&text);
+        let book: Vec<Option<(u32, u8)>> = freqs.iter().map(|(s, _)| enc.encode(*s)).collect();
+        // the first symbol of the row that does not come back through decode(encode(.))
+        let mut bad = None;
+        for t in text.iter() {
+            let back = enc.encode(*t).and_then(|(c, l)| enc.decode(c, l));
+            if back != Some(*t) {
+                bad = Some(*t);
+                break;
+            }
+        }
+        (book, enc.symbols(), enc.encode(absent), bad)
+    });
+    // weights only (the multiset of weights at every merge does not depend on the tie-breaking):
+    // is there a merge at which the choice or the order of the two lightest nodes is not forced?
+    let mut ws: Vec<u64> = freqs.iter().map(|f| f.1).collect();
+    let mut tie = false;
+    while ws.len() >= 2 {
+        ws.sort();
+        if ws[0] == ws[1] || (ws.len() >= 3 && ws[1] == ws[2]) {
+            tie = true;
+        }
+        let m = ws[0] + ws[1];
+        ws.drain(0..2);
+        ws.push(m);
+    }
+    let fq = if freqs.is_empty() { "-".to_string() } else { freqs.iter().map(|(s, f)| format!("{}:{}", s, f)).collect::<Vec<_>>().join(",") };
+    rec.count(&format!("huff.family.{}", family));
+    rec.count(&format!("huff.K.{}", match k { 0 => "0", 1 => "1", 2 => "2", 3..=8 => "3-8", 9..=16 => "9-16", 17..=24 => "17-24", _ => "25-40" }));
+    rec.add("huff.row_symbols_total", text.len() as u64);
+    match r {
+        Ok((book, nsyms, absent_code, bad)) => {
+            let cb: Vec<String> = freqs.iter().zip(book.iter()).map(|((s, _), e)| match e { Some((c, l)) => format!("{}:{}:{}", s, c, l), None => format!("{}:0:0", s) }).collect();
+            let req = format!("doc huff {} :: {}", fq, if cb.is_empty() { "-".to_string() } else { cb.join(",") });
+            let depth = book.iter().map(|e| e.map(|x| x.1).unwrap_or(0)).max().unwrap_or(0);
+            let mut what: Vec<String> = vec![];
+            if nsyms != k {
+                what.push(format!("symbols()={} for {} input symbols", nsyms, k));
+            }
+            if absent_code.is_some() {
+                what.push(format!("absent symbol {} has a code", absent));
+            }
+            let mut kraft: u64 = 0;
+            for ((s, _), e) in freqs.iter().zip(book.iter()) {
+                match e {
+                    None => what.push(format!("symbol {} has no code", s)),
+                    Some((c, l)) => {
+                        if *l == 0 || *l >= 32 {
+                            what.push(format!("symbol {} length {}", s, l));
+                        } else {
+                            if (*c as u64) >= (1u64 << *l) {
+                                what.push(format!("symbol {} code {} >= 2^{}", s, c, l));
+                            }
+                            kraft += 1u64 << (32 - *l as u32);
+                        }
+                    }
+                }
+            }
+            'pf: for i in 0..k {
+                for j in 0..k {
+                    if i == j {
+                        continue;
+                    }
+                    if let (Some((ci, li)), Some((cj, lj))) = (book[i], book[j]) {
+                        if li >= 1 && li <= lj && lj < 32 && (cj & ((1u32 << li) - 1)) == ci {
+                            what.push(format!("code of {} ({}:{}) is a prefix of the code of {} ({}:{})", freqs[i].0, ci, li, freqs[j].0, cj, lj));
+                            break 'pf;
+                        }
+                    }
+                }
+            }
+            if k >= 2 && kraft != 1u64 << 32 {
+                what.push(format!("kraft sum {}/2^32 != 1", kraft));
+            }
+            if k == 1 && book[0] != Some((0, 1)) {
+                what.push(format!("single symbol coded {:?}", book[0]));
+            }
+            let v = if !what.is_empty() {
+                Verdict::Fail { class: "huffman-book-malformed".into(), detail: what.join(" ; ") }
+            } else if let Some(t) = bad {
+                Verdict::Fail { class: "huffman-roundtrip".into(), detail: format!("decode(encode({})) != {}", t, t) }
+            } else {
+                Verdict::Ok
+            };
+            if tie {
+                rec.count("huff.with-tie");
+            }
+            if depth >= 8 {
+                rec.count("huff.depth>=8");
+            }
+            if depth >= 17 {
+                rec.count("huff.depth>=17");
+            }
+            let nt = if (k >= 3 && tie) || depth >= 8 { Some(fnv(req.as_bytes())) } else { None };
+            if nt.is_some() {
+                rec.count("huff.nontrivial");
+            }
+            rec.case(&req, "eq=1", v, nt);
+        }
+        Err(m) => {
+            let req = format!("doc huff {} :: -", fq);
+            rec.case(&req, "panic", Verdict::Fail { class: "doc-panic".into(), detail: m }, Some(fnv(req.as_bytes())));
+        }
     }
 }
 
@@ -2240,6 +2365,80 @@ fn run_sampled(args: &Args, rec: &mut Recorder) {
         let (text, _alphabet, _absent, shape, _alpha) = make_text(&mut rng, n, k.min(n), shape_kind);
         wtpsi_case(rec, text, shape);
     }
+    // ---- stream 27: the Huffman construction on tie-heavy and deep frequency tables ---------------------
+    // directed tables first (fixed, the seed only picks symbol names and the order of the weights),
+    // then random small weights
+    let mut tables: Vec<(Vec<u64>, &'static str)> = vec![];
+    for w in [1u64, 5, 1000] {
+        tables.push((vec![w], "single"));
+    }
+    for (a, b) in [(1u64, 1u64), (1, 7), (7, 1), (1000, 1), (3, 3)] {
+        tables.push((vec![a, b], "two"));
+    }
+    for k in 2..=40usize {
+        tables.push((vec![1 + (k as u64 % 3); k], "all-equal"));
+    }
+    let fib = |k: usize| -> Vec<u64> {
+        let mut v = vec![1u64, 1];
+        while v.len() < k {
+            let n = v.len();
+            v.push(v[n - 1] + v[n - 2]);
+        }
+        v
+    };
+    for k in 2..=24usize {
+        tables.push((fib(k), "fibonacci"));
+    }
+    for k in 3..=20usize {
+        let mut v = fib(k);
+        v.reverse();
+        tables.push((v, "fibonacci-descending"));
+        tables.push((fib(k), "fibonacci-shuffled"));
+    }
+    for k in 2..=16usize {
+        tables.push(((0..k).map(|j| 1u64 << j).collect(), "powers-of-two"));
+        // 1,1,2,4,…: every merge ties with the next weight
+        tables.push((std::iter::once(1u64).chain((0..k - 1).map(|j| 1u64 << j)).collect(), "powers-of-two-complete"));
+    }
+    for k in 3..=12usize {
+        tables.push(((0..k).map(|j| 1u64 << j).collect(), "powers-of-two-shuffled"));
+        tables.push((std::iter::once(1u64).chain((0..k - 1).map(|j| 1u64 << j)).collect(), "powers-of-two-complete-shuffled"));
+    }
+    for a in 2..=9usize {
+        for b in [1usize, 2, 3, 5, 8] {
+            // `a` symbols of weight w and `b` of weight 2w: the merged pairs tie with the second level
+            tables.push((vec![], if (a + b) % 2 == 0 { "two-level" } else { "two-level-shuffled" }));
+            let w = 1 + ((a + b) % 3) as u64;
+            let mut v = vec![w; a];
+            v.extend(vec![2 * w; b]);
+            tables.last_mut().unwrap().0 = v;
+        }
+    }
+    let ndirected = tables.len() as u64;
+    let n27 = ndirected + if args.thorough { 1500 } else { 300 };
+    for i in 0..n27 {
+        if !rec.wants() {
+            rec.skip();
+            continue;
+        }
+        let mut rng = Rng::for_case(args.seed, 27, i);
+        let (mut ws, family): (Vec<u64>, &str) = if i < ndirected {
+            tables[i as usize].clone()
+        } else {
+            let k = rng.range(3, 30) as usize;
+            let top = *rng.pick(&[2u64, 3, 4, 4]);
+            ((0..k).map(|_| rng.range(1, top)).collect(), "random-small")
+        };
+        if family.ends_with("-shuffled") {
+            rng.shuffle(&mut ws);
+        }
+        // symbol names: dense from 0 (the dense frequency table), offset / strided, or far apart (the
+        // hash-map frequency table)
+        let base = *rng.pick(&[0u32, 0, 1, 7, 1000, 1 << 20, 5_000_000]);
+        let step = *rng.pick(&[1u32, 1, 3, 100_000]);
+        let freqs: Vec<(u32, u64)> = ws.iter().enumerate().map(|(j, w)| (base + step * j as u32, *w)).collect();
+        huff_case(rec, freqs, family);
+    }
 }
 
 pub fn run(args: &Args) {
@@ -2252,7 +2451,7 @@ pub fn run(args: &Args) {
     run_sampled(args, &mut rec);
     eprintln!("C19 harness: bv {:.1}s, doc {:.1}s, sampled {:.1}s", (t1 - t0).as_secs_f64(), (t2 - t1).as_secs_f64(), t2.elapsed().as_secs_f64());
     rec.finish(
-        "bv: seeded bit patterns (all-zeros, all-ones, alternating, runs of length B-1/B/B+1 for the block sizes B of the implementations, single bits at block boundaries, stripes, random densities 1/2..1/1000, random runs) of length 0..70 exhaustively, around every block size, and up to 6000 (quick) / 70000 (thorough) bits, asked at every argument (small) or at 36-40 boundary+random arguments (large), through seven implementations each parsed twice; doc: texts (single symbol, all-equal, periodic, de Bruijn, Fibonacci/Thue-Morse, monotone, one-off, repeats, random) over alphabets of 1..3000 (thorough: >65536) code points incl. 0, 2^20+-1, 0x10FFFF, 0x110000, 2^32-1, with records at every admissible kind of division; patterns exhaustive up to length 3-4 over alphabet+absent symbol for n<=14, sampled (substrings, boundary-crossing, perturbed, absent, whole text, longer than text, empty) otherwise; plus inadmissible divisions and the empty text; non-trivial = a non-empty bit vector; a document of >= 2 symbols with >= 1 non-empty pattern; every big/rejected case; distinct by request text",
+        "bv: seeded bit patterns (all-zeros, all-ones, alternating, runs of length B-1/B/B+1 for the block sizes B of the implementations, single bits at block boundaries, stripes, random densities 1/2..1/1000, random runs) of length 0..70 exhaustively, around every block size, and up to 6000 (quick) / 70000 (thorough) bits, asked at every argument (small) or at 36-40 boundary+random arguments (large), through seven implementations each parsed twice; doc: texts (single symbol, all-equal, periodic, de Bruijn, Fibonacci/Thue-Morse, monotone, one-off, repeats, random) over alphabets of 1..3000 (thorough: >65536) code points incl. 0, 2^20+-1, 0x10FFFF, 0x110000, 2^32-1, with records at every admissible kind of division; patterns exhaustive up to length 3-4 over alphabet+absent symbol for n<=14, sampled (substrings, boundary-crossing, perturbed, absent, whole text, longer than text, empty) otherwise; plus inadmissible divisions and the empty text; non-trivial = a non-empty bit vector; a document of >= 2 symbols with >= 1 non-empty pattern; every big/rejected case; huff: frequency tables (single symbol, two symbols, all weights equal over 2..40 symbols, Fibonacci weights over 2..24 symbols ascending / descending / shuffled, powers of two with and without the doubled unit, two-level ties, random weights 1..4 over 3..30 symbols) under dense, strided and far-apart symbol names, the real HuffmanEncoder built over a row with exactly those multiplicities; non-trivial = at least 3 symbols with a merge at which the two lightest weights are equal or the second lightest is not unique, or a code word of 8 or more bits; distinct by request text",
         &[],
     );
 }
